@@ -49,6 +49,7 @@ type Case struct {
 	Z      uint32      `json:"z"`
 	Target uint32      `json:"target"`
 	G      gen.G       `json:"g"`
+	Layout string      `json:"layout,omitempty"` // memory layout of the argument: shared | spare | plain (see layout_test.go)
 	Tiles  [][2]uint32 `json:"tiles,omitempty"`
 }
 
@@ -145,12 +146,12 @@ func segTiles(a, b pt, grow float64, f func(k tkey)) {
 
 type model struct {
 	z     uint32
-	req   map[tkey]string          // tiles that must be in the cover, with the reason
-	allow []func(k tkey) bool      // a cover tile must satisfy at least one
-	notes map[string]int           // counters for classification
-	inDom bool                     // false once a member outside the quantifier was seen
-	why   string                   // why not in the domain
-	polys []polyInfo               // per polygon info
+	req   map[tkey]string     // tiles that must be in the cover, with the reason
+	allow []func(k tkey) bool // a cover tile must satisfy at least one
+	notes map[string]int      // counters for classification
+	inDom bool                // false once a member outside the quantifier was seen
+	why   string              // why not in the domain
+	polys []polyInfo          // per polygon info
 }
 
 type polyInfo struct {
@@ -672,8 +673,19 @@ func evalCover(c Case) (info, error) {
 		return inf, fmt.Errorf("harness: target zoom %d above cover zoom %d", c.Target, c.Z)
 	}
 	z := maptile.Zoom(c.Z)
-	g := gen.DeepCopy(c.G.V)
+	// the model works on an independent deep copy taken before any call; orb
+	// gets the geometry re-laid out with watched spare capacity
 	orig := gen.DeepCopy(c.G.V)
+	g, gd := layOut(c.G.V, c.Layout)
+	readOnly := func(after string) error {
+		if same, what := gen.SameBits(g, orig); !same {
+			return fmt.Errorf("tile covers are read-only on their argument, but after %s it differs: %s", after, what)
+		}
+		if err := gd.check(); err != nil {
+			return fmt.Errorf("tile covers are read-only on their argument, but after %s (layout %s): %v", after, c.Layout, err)
+		}
+		return nil
+	}
 
 	m := newModel(c.Z)
 	m.addGeom(orig)
@@ -689,6 +701,9 @@ func evalCover(c Case) (info, error) {
 	}
 
 	set, err := tilecover.Geometry(g, z)
+	if rerr := readOnly("tilecover.Geometry"); rerr != nil {
+		return inf, rerr
+	}
 	if err != nil {
 		if m.inDom {
 			return inf, fmt.Errorf("tilecover.Geometry returned an error for a geometry of the quantifier: %v", err)
@@ -706,6 +721,9 @@ func evalCover(c Case) (info, error) {
 
 	// the typed entry point agrees with the generic one
 	tset, terr := typedCover(g, z)
+	if rerr := readOnly("the typed cover function"); rerr != nil {
+		return inf, rerr
+	}
 	if terr != nil {
 		return inf, fmt.Errorf("typed cover function returned %v where tilecover.Geometry returned none", terr)
 	}
@@ -745,6 +763,10 @@ func evalCover(c Case) (info, error) {
 				return inf, fmt.Errorf("cover of the %s is not the union of its members' covers (tile %v)", gen.KindOf(g), t)
 			}
 		}
+	}
+
+	if rerr := readOnly("the covers of the members"); rerr != nil {
+		return inf, rerr
 	}
 
 	// merging the cover upward
@@ -805,21 +827,62 @@ func checkMerge(in []maptile.Tile, Z, target uint32) (mustMerge bool, err error)
 		}
 	}
 	// MergeUp mutates its argument: every call gets a fresh clone
-	out := members(tilecover.MergeUp(mkSet(in), maptile.Zoom(target)))
+	res1 := tilecover.MergeUp(mkSet(in), maptile.Zoom(target))
+	out := members(res1)
 	if err := verifyMerge(inSet, out, Z, target); err != nil {
 		return mustMerge, fmt.Errorf("MergeUp(%d tiles at zoom %d, %d): %v", len(in), Z, target, err)
 	}
 	if mustMerge && len(out) >= len(in) {
 		return mustMerge, fmt.Errorf("MergeUp(%d tiles at zoom %d, %d): nothing was merged although a complete quad exists", len(in), Z, target)
 	}
-	outP := members(tilecover.MergeUpPartial(mkSet(in), maptile.Zoom(target), 4))
+	res2 := tilecover.MergeUpPartial(mkSet(in), maptile.Zoom(target), 4)
+	outP := members(res2)
 	if err := verifyMerge(inSet, outP, Z, target); err != nil {
 		return mustMerge, fmt.Errorf("MergeUpPartial(%d tiles at zoom %d, %d, 4): %v", len(in), Z, target, err)
 	}
 	if t, ok := sameSet(out, outP); !ok {
 		return mustMerge, fmt.Errorf("MergeUp and MergeUpPartial(count=4) disagree on tile %v", t)
 	}
+
+	// the two results stay what they are when ANOTHER set is merged afterwards
+	// (no state shared between calls): merge a different set with both
+	// functions, then look at the first two results again
+	other := otherSet(in, Z)
+	_ = tilecover.MergeUp(mkSet(other), maptile.Zoom(target))
+	_ = tilecover.MergeUpPartial(mkSet(other), maptile.Zoom(target), 4)
+	if Z > 0 {
+		_ = tilecover.MergeUp(mkSet(other), maptile.Zoom(target/2))
+	}
+	if t, ok := sameSet(out, members(res1)); !ok || len(res1) < len(out) {
+		return mustMerge, fmt.Errorf("result of MergeUp(%d tiles at zoom %d, %d) changed when another set was merged afterwards (tile %v)", len(in), Z, target, t)
+	}
+	if t, ok := sameSet(outP, members(res2)); !ok || len(res2) < len(outP) {
+		return mustMerge, fmt.Errorf("result of MergeUpPartial(%d tiles at zoom %d, %d, 4) changed when another set was merged afterwards (tile %v)", len(in), Z, target, t)
+	}
 	return mustMerge, nil
+}
+
+// otherSet: a set of zoom Z different from in: the complete quad at the origin
+// plus every input tile moved by (+2,+1) (wrapping at the edge of the world).
+func otherSet(in []maptile.Tile, Z uint32) []maptile.Tile {
+	n := uint32(1) << Z
+	seen := map[maptile.Tile]bool{}
+	var out []maptile.Tile
+	add := func(x, y uint32) {
+		t := maptile.New(x%n, y%n, maptile.Zoom(Z))
+		if !seen[t] {
+			seen[t] = true
+			out = append(out, t)
+		}
+	}
+	add(0, 0)
+	add(1, 0)
+	add(0, 1)
+	add(1, 1)
+	for _, t := range in {
+		add(t.X+2, t.Y+1)
+	}
+	return out
 }
 
 func verifyMerge(in maptile.Set, out map[maptile.Tile]bool, Z, target uint32) error {
